@@ -308,7 +308,18 @@ func (pv *Prov) call(v ssa.Value, c *ssa.CallCommon, depth int, seen map[ssa.Val
 		}
 		return e
 	}
-	for _, a := range c.Args {
+	for i, a := range c.Args {
+		// expand a variadic argument list built in place
+		if i == len(c.Args)-1 && c.Signature().Variadic() {
+			if _, isBuiltin := c.Value.(*ssa.Builtin); !isBuiltin {
+				if elems, ok := variadicArgs(a); ok {
+					for _, el := range elems {
+						e.Args = append(e.Args, rec(unIface(el)))
+					}
+					continue
+				}
+			}
+		}
 		e.Args = append(e.Args, rec(a))
 	}
 	switch f := c.Value.(type) {
@@ -469,6 +480,21 @@ func GuardsOf(b *ssa.BasicBlock) []Guard {
 			out = append(out, Guard{iff.Cond, true, d})
 		} else if edgeDominates(d, d.Succs[1], b) {
 			out = append(out, Guard{iff.Cond, false, d})
+		}
+	}
+	return out
+}
+
+// EdgeGuards: the guards that hold when control passes from pred to succ.
+func EdgeGuards(pred, succ *ssa.BasicBlock) []Guard {
+	out := GuardsOf(pred)
+	if len(pred.Instrs) > 0 {
+		if iff, ok := pred.Instrs[len(pred.Instrs)-1].(*ssa.If); ok && len(pred.Succs) == 2 && pred.Succs[0] != pred.Succs[1] {
+			if pred.Succs[0] == succ {
+				out = append(out, Guard{iff.Cond, true, pred})
+			} else if pred.Succs[1] == succ {
+				out = append(out, Guard{iff.Cond, false, pred})
+			}
 		}
 	}
 	return out
